@@ -2,11 +2,13 @@
 import itertools
 
 SCHEMES = ['http', 'HTTP', 'https', 'ftp', 'ws', 'wss', 'gopher']
-USERINFO = ['', 'u@', 'u:p@', '%41:p%40@', 'a%3ab:c%2fd@', ':@', 'ü:é@']
+USERINFO = ['', 'u@', 'u:p@', '%41:p%40@', 'a%3ab:c%2fd@', ':@', 'ü:é@', ':é@', ':%FFs@', ':p€@',
+            '€@', '%e2%82%ac:@']
 HOSTS = ['a', 'A.TEST', 'a.', 'ａ.test', 'ß.test', 'xn--bcher-kva.test', '0x7f.1', '０x7f',
          '１２７.1', '127.0.0.1', '2130706433', '017700000001', '0177.0.0.1', '1.2.3', '[::1]',
          '[0:0:0:0:0:0:0:1]', '[::ffff:1.2.3.4]', '[::FFFF:102:304]', '0x7F.0.0.1',
-         'bücher.test', 'BÜCHER.test', '1.2.3.4.', '192.168.0.1', '0300.0250.0.1']
+         'bücher.test', 'BÜCHER.test', '1.2.3.4.', '192.168.0.1', '0300.0250.0.1',
+         '0X7f.0.0.1', '0XC00002EB', '0X7F.0X0.0x0.0X1']
 PORTS = ['', ':80', ':0080', ':8080', ':0', ':65535', ':443', ':21', ':']
 PATHS = ['', '/', '/a/./b', '/a/../b', '/../a', '//a///b', '/a/..', '/%2e/', '/%2E%2e/',
          '/%aF', '/%Af%fA', '/%zz%', '/ a', '/é', '/a;b=c', '/a/b/../../..', '/./', '/a/.',
@@ -16,7 +18,7 @@ FRAGMENTS = ['', '#f', '#%41 é']
 ENCODINGS = ['utf-8', 'latin-1', 'shift_jis']
 
 SIGMA = ['a', 'A', '.', '/', ':', '%', '2', 'e', 'E', '@', '[', ']', '?', '#', ' ', '\\', '0',
-         'x', '０', 'ß']
+         'x', '０', 'ß', 'X']
 UNI = ['\ud800', '\udfff', '\x00', '\x1f', '\x85', '\u2028', '\uffff', '\U0010ffff', '１', '\u0301',
        'a', '.', ':', '/']
 SOUP = ['[', ']', ':', '@']
@@ -72,7 +74,8 @@ RESPELL_FAMILIES = [
     ('http', ['a.test', 'A.TEST', 'a.TeSt'], 80, ['/p', '/x/../p', '/./p', '//p', '/x/./../p'],
      '?q=1'),
     ('http', ['127.0.0.1', '0x7f.0.0.1', '0177.0.0.1', '2130706433', '0x7f000001',
-              '017700000001', '１２７.0.0.1'], 8080, ['/', ''], ''),
+              '017700000001', '１２７.0.0.1', '0X7f.0.0.1', '0X7F000001', '0x7F.0X0.0.1'], 8080,
+     ['/', ''], ''),
     ('https', ['[::1]', '[0:0:0:0:0:0:0:1]', '[0::1]', '[0000:0000::0001]'], 443,
      ['/a%2fb', '/a%2Fb'], ''),
     ('http', ['[::ffff:1.2.3.4]', '[::FFFF:102:304]', '[0:0:0:0:0:ffff:0102:0304]'], 80,
